@@ -1,7 +1,9 @@
 (* Properties_C04.v — C04: start is all-or-nothing.  Theorems only: the handle-state half, and what
-   the RESULT of start means under every fault plan (C04_start_result, proof in StartSpec.v); the
-   descriptor/heap/child residue and the error cause are decided by the fault enumeration of the tie. *)
-From Verif Require Import Lib Build OptSpec WorldSpec WorldSpec2 LibSpec LibSpec2 ParentSpec StartSpec.
+   the RESULT of start means under every fault plan (C04_start_result, proof in StartSpec.v), and that
+   a failed start leaves no descriptor and no block behind and a fresh handle, under every fault plan
+   (C04_failed_start_leaves_nothing, proofs in FdSpec.v / HeapSpec.v); the child residue and the
+   error cause are decided by the fault enumeration of the tie. *)
+From Verif Require Import Lib Build OptSpec WorldSpec WorldSpec2 LibSpec LibSpec2 ParentSpec StartSpec FdSpec HeapSpec MemSpec.
 From Coq Require Import Lia.
 Local Open Scope Z_scope.
 
@@ -47,6 +49,21 @@ Proof.
 Qed.
 Print Assumptions C04_start_result.
 
+(* A FAILED START LEAVES NOTHING, EVERY FAULT PLAN: on a handle as reproc_new makes it (or as a
+   previous failed start left it), whenever start returns a negative result -- whichever call failed,
+   at whatever point, on either side of fork -- the caller's descriptor table is exactly what it was
+   (numbers, objects, flags), its heap holds exactly the blocks it held, and the handle is again
+   exactly as reproc_new makes it: it can be started again or destroyed.  (The child balance --
+   no process left behind -- is decided by the tie; see D23.) *)
+Theorem C04_failed_start_leaves_nothing : forall p argv o src (ck : rp -> MW unit) w r p' w',
+  WorldSpec2.wf w -> 0 <= w_cur w -> w_cur w = w_main w -> 0 < w_next_blk w ->
+  (forall id, w_next_blk w <= id -> heap_live id w = false) ->
+  (forall q, kp (w_cur w) (ck q)) -> (forall q, hk true (ck q)) -> fresh_handle p ->
+  reproc_start p argv o src ck w = Ret (r, p') w' -> r < 0 ->
+  pr_fds (curp w') = pr_fds (curp w) /\ (forall id, heap_live id w' = heap_live id w) /\ fresh_handle p' /\ h_blk p' = h_blk p.
+Proof. exact failed_start_leaves_nothing. Qed.
+Print Assumptions C04_failed_start_leaves_nothing.
+
 (* the layer below: process_start returns a negative error with the handle untouched, or 1 with the
    positive pid of its own fork *)
 Theorem C04_process_start_result : forall pr argv o ck w r pid w',
@@ -74,6 +91,17 @@ Proof.
     - eexists. split; [apply lookup_singleton|]. split; reflexivity.
     - intros k [x Hk]. cbn in Hk. apply lookup_singleton_Some in Hk. destruct Hk as [<- _]. cbn. lia. }
   split; [cbn; lia|]. split; [cbn; lia|]. split; vm_compute; reflexivity.
+Qed.
+
+(* the premises of C04_failed_start_leaves_nothing hold on that world, with the failing fork plan *)
+Example C04_ex_leaves_nothing :
+  let w := C04_ex_world [(30, 11%positive)] in
+  w_cur w = w_main w /\ (forall id, w_next_blk w <= id -> heap_live id w = false) /\ fresh_handle (rp_new 1) /\
+  (forall q : rp, kp (w_cur w) (ret tt)) /\ (forall q : rp, hk true (ret tt)).
+Proof.
+  cbn zeta. split; [reflexivity|]. split.
+  - intros id _. unfold heap_live. cbn. rewrite lookup_empty. reflexivity.
+  - split; [apply fresh_rp_new|]. split; [intros _; apply kp_ret|intros _; apply hk_ret].
 Qed.
 
 Example C04_ex : start_post (rp_new 1) (Build_options None 0 None (Build_redirect 0 0 0 None) (Build_redirect 0 0 0 None) (Build_redirect 0 0 0 None) false false 0 None null_stop 0 false 0 false false) None (REPROC_EINVAL, rp_new 1).
